@@ -620,7 +620,10 @@ func (fr *Frame) logCall(st, pre *State, key, recv string, args []Val, res []Val
 		if srt == "Slice_Int" {
 			continue
 		}
-		if _, isPtr := a.T.Underlying().(*types.Pointer); isPtr {
+		switch a.T.Underlying().(type) {
+		case *types.Struct, *types.Interface:
+			// payloads are recorded for structs (e.g. the runner's payload) and interface values (e.g. an io.Writer)
+		default:
 			continue
 		}
 		box, _ := vc.evBox(srt)
@@ -783,6 +786,12 @@ func (fr *Frame) execConvert(in *ssa.Convert, st *State) Val {
 			vc.fact(fmt.Sprintf("(=> (>= %s 128) (not (str.contains (string_of_rune %s) \"%%\")))", r, r))
 		}
 		return Val{T: to, Term: fmt.Sprintf("(string_of_rune %s)", r)}
+	case isString(to) && x.Runes != nil:
+		// string(rs) for a window rs of []rune(s): the bytes between the offsets of its first and one-past-last rune
+		rs := vc.term(st, x)
+		lo := x.Runes.Lo
+		hi := fmt.Sprintf("(+ %s (len_%s %s))", lo, fs, rs)
+		return Val{T: to, Term: fmt.Sprintf("(str.substr %s (rune_off %s %s) (- (rune_off %s %s) (rune_off %s %s)))", x.Runes.S, x.Runes.S, lo, x.Runes.S, hi, x.Runes.S, lo)}
 	case isString(to): // string([]byte) / string([]rune)
 		n := "string_of_" + convKind(from)
 		vc.declareFun(n, []string{fs}, "String")
@@ -805,8 +814,24 @@ func (fr *Frame) execConvert(in *ssa.Convert, st *State) Val {
 					vc.fact(fmt.Sprintf("(<= (len_%s %s) (str.len %s))", ts, t, vc.term(st, x)))
 					vc.fact(fmt.Sprintf("(>= (len_%s %s) 0)", ts, t))
 					vc.fact(fmt.Sprintf("(= (= (len_%s %s) 0) (= %s \"\"))", ts, t, vc.term(st, x)))
+					// A7 (valid UTF-8): rune k of s occupies the bytes rune_off(s,k) .. rune_off(s,k+1)-1 (1 to 4 of them),
+					// the offsets start at 0, end at len(s) and grow; string(r) of rune k is exactly that segment
+					sx := vc.term(st, x)
+					n := fmt.Sprintf("(len_%s %s)", ts, t)
+					vc.declareFun("rune_off", []string{"String", "Int"}, "Int")
+					vc.declareFun("string_of_rune", []string{"Int"}, "String")
+					vc.Assumed["A7: strings converted to []rune are valid UTF-8: rune k occupies 1..4 bytes at a growing offset, string(r) is that segment, the offsets cover the string"] = true
+					vc.fact(fmt.Sprintf("(= (rune_off %s 0) 0)", sx))
+					vc.fact(fmt.Sprintf("(= (rune_off %s %s) (str.len %s))", sx, n, sx))
+					vc.fact(fmt.Sprintf("(forall ((?k Int)) (! (=> (and (<= 0 ?k) (< ?k %s)) (and (>= (- (rune_off %s (+ ?k 1)) (rune_off %s ?k)) 1) (<= (- (rune_off %s (+ ?k 1)) (rune_off %s ?k)) 4) (>= (rune_off %s ?k) 0) (= (string_of_rune (select (arr_%s %s) ?k)) (str.substr %s (rune_off %s ?k) (- (rune_off %s (+ ?k 1)) (rune_off %s ?k)))) (= (= (- (rune_off %s (+ ?k 1)) (rune_off %s ?k)) 1) (< (select (arr_%s %s) ?k) 128)) (>= (select (arr_%s %s) ?k) 0))) :pattern ((select (arr_%s %s) ?k)) :pattern ((rune_off %s ?k))))",
+						n, sx, sx, sx, sx, sx, ts, t, sx, sx, sx, sx, sx, sx, ts, t, ts, t, ts, t, sx))
+					vc.fact(fmt.Sprintf("(forall ((?j Int) (?k Int)) (! (=> (and (<= 0 ?j) (<= ?j ?k) (<= ?k %s)) (>= (- (rune_off %s ?k) (rune_off %s ?j)) (- ?k ?j))) :pattern ((rune_off %s ?j) (rune_off %s ?k))))", n, sx, sx, sx, sx))
+					return Val{T: to, Term: t, Runes: &RuneSrc{S: sx, Lo: "0"}}
 				}
 			}
+		}
+		if convKind(to) == "runes" {
+			return Val{T: to, Term: t, Runes: &RuneSrc{S: vc.term(st, x), Lo: "0"}}
 		}
 		return Val{T: to, Term: t}
 	}
